@@ -227,6 +227,16 @@ def extract_ladder(repo: Repo) -> Ladder:
                 henv = {p: origins(a, fn, level, env, defs, frozenset()) for p, a in zip(hp, call.args)}
                 collect(c, level, henv, stack + (mname,))
                 continue
+            if cls is not None and cls not in classes and '.' not in cls:
+                # the class comes out of a constant table: `for tid, node_type in TABLE: ... create_node(node_type, ...)`
+                for tcls in _classes_from_table(repo, mod, fn, call, cls, classes):
+                    if _is_result(fn, call):
+                        if tcls not in inits:
+                            inits[tcls] = init_map(repo, mod, tcls)
+                        params, amap = inits[tcls]
+                        tslots = {amap[p_]: origins(a_, fn, level, env, defs, frozenset()) for p_, a_ in zip(params, cargs) if p_ in amap}
+                        lad.constructions.append(Construction(tcls, level, mname, tslots, {}, call))
+                continue
             if cls is None or cls not in classes:
                 continue
             if not _is_result(fn, call):
@@ -289,6 +299,31 @@ def extract_ladder(repo: Repo) -> Ladder:
                     key = (k, attr)
                     lad.need[key] = min(lad.need.get(key, r), r)
     return lad
+
+
+def _classes_from_table(repo: Repo, mod: Module, fn: ast.AST, call: ast.Call, var: str, classes: T.Dict[str, T.List[str]]) -> T.List[str]:
+    from ..consteval import Opaque
+    out: T.List[str] = []
+    for loop in ast.walk(fn):
+        if not (isinstance(loop, ast.For) and any(x is call for x in ast.walk(loop))):
+            continue
+        tg = loop.target
+        names = [norm(e) for e in tg.elts] if isinstance(tg, (ast.Tuple, ast.List)) else [norm(tg)]
+        if var not in names:
+            continue
+        try:
+            tab = fold_expr(repo, mod, loop.iter)
+        except Undecided:
+            raise Undecided(f'Parser: node class {var} is taken from {short(loop.iter)}, which does not fold')
+        if isinstance(tab, dict):
+            tab = list(tab.items())
+        for row in tab:
+            item = row[names.index(var)] if isinstance(tg, (ast.Tuple, ast.List)) else row
+            if isinstance(item, Opaque) and item.kind == 'class' and item.name in classes:
+                out.append(item.name)
+            else:
+                raise Undecided(f'Parser: entry {item!r} of {short(loop.iter)} is not a node class')
+    return out
 
 
 def _const_values(repo: Repo, mod: Module, e: ast.AST) -> T.Optional[T.FrozenSet[T.Any]]:
